@@ -179,9 +179,11 @@ void describe_blocked() {
     }
 }
 
+std::string g_abort_note;
 void abort_world(int why) {
     g.aborted = why;
     describe_blocked();
+    if (!g_abort_note.empty()) { g.blocked = g_abort_note + "; " + g.blocked; g_abort_note.clear(); }
     // abandon every fiber: jump back into run_world on the root stack
     Fiber *from = g.cur;
     g.cur = g.root;
@@ -373,6 +375,9 @@ bool maybe_preempt() {
     ++g.decisions; ++g.points;
     return false;
 }
+
+// a runtime (simulated MPI) found the world in a state no conforming execution can leave: treat like a deadlock
+void fail_world(const char *why) { g_abort_note = why; abort_world(ST_DEADLOCK); }
 
 // directed re-runs (trace flavour): give the processor to a particular team member, or to anybody else
 bool yield_to_tid(Team *t, int tid) {
